@@ -55,11 +55,22 @@ def instances(tier, seed):
                                 add(op="canonicalise", cls=cls, kinds=kinds, bonds=bonds, qn=qn, qntot=qntot, qnidx=0, to_right=True, stop=stop)
                     if idx == n - 1:
                         add(op="canonicalise", cls=cls, kinds=kinds, bonds=bonds, qn=qn, qntot=qntot, qnidx=n - 1, to_right=False)
+                        if n > 2:
+                            for stop in range(0, n):
+                                add(op="canonicalise", cls=cls, kinds=kinds, bonds=bonds, qn=qn, qntot=qntot, qnidx=n - 1, to_right=False, stop=stop)
                         if n == 2 or tier == "thorough":
                             add(op="compress", cls=cls, kinds=kinds, bonds=bonds, qn=qn, qntot=qntot, qnidx=n - 1, to_right=False)
                     if cls == "mps" and n <= 3:
                         add(op="ensure_left", cls=cls, kinds=kinds, bonds=bonds, qn=qn, qntot=qntot, qnidx=idx, to_right=(idx == 0))
                         add(op="ensure_right", cls=cls, kinds=kinds, bonds=bonds, qn=qn, qntot=qntot, qnidx=idx, to_right=(idx == 0))
+    # longer chains with thin bonds: centre / direction bookkeeping of partial sweeps (every stop site, both directions)
+    for kinds, bonds in [(("e", "e", "e", "e"), (1, 1, 2, 1, 1)), (("e", "e", "e", "e", "e"), (1, 1, 1, 1, 1, 1))]:
+        n = len(kinds)
+        for qnidx, to_right in ((0, True), (n - 1, False)):
+            for qn in cs.label_sets("mps", kinds, bonds, 1, qnidx, 1, seed):
+                add(op="canonicalise", cls="mps", kinds=kinds, bonds=bonds, qn=qn, qntot=1, qnidx=qnidx, to_right=to_right)
+                for stop in range(0, n):
+                    add(op="canonicalise", cls="mps", kinds=kinds, bonds=bonds, qn=qn, qntot=1, qnidx=qnidx, to_right=to_right, stop=stop)
     for n in ((1, 2, 3, 4, 5, 6, 7, 8) if tier == "quick" else range(1, 13)):
         out.append(dict(op="loop", n=n, label="loop coverage site_num=%d" % n, key="loop"))
     return out
